@@ -54,6 +54,7 @@ type gl struct {
 	nScan     int
 	rdLoopVar string
 	wrParam   string // name of the io.Writer parameter when translating a Write method
+	declared   map[string]bool   // local names declared so far in the function being translated
 	opaque     map[string]string // function name -> parameter standing for its result
 	opaqueUsed map[string]bool
 	iterRead  string // translated read function used by the iter method being translated
@@ -286,8 +287,20 @@ var leanKeywords = map[string]bool{"at": true, "from": true, "fun": true, "do": 
 	"example": true, "abbrev": true, "inductive": true, "Type": true, "Prop": true, "Sort": true, "calc": true, "using": true,
 	"suffices": true, "obtain": true, "this": true, "nomatch": true, "nofun": true, "deriving": true, "extends": true, "set_option": true}
 
+// names of the GoRt vocabulary and of the variables the translation introduces itself
+var vocabulary = map[string]bool{"idx": true, "setIdx": true, "slice": true, "len": true, "upTo": true, "upToStep": true, "downFrom": true,
+	"enum": true, "cmp": true, "u8": true, "shl8": true, "shrInt": true, "andInt": true, "quo": true, "rem": true, "mapGet": true,
+	"copyInto": true, "containsAny": true, "replaceAll": true, "scan": true, "scanErr": true, "endErr": true, "wrWrite": true, "itoa": true,
+	"setInsert": true, "setErase": true, "sortInts": true, "sortByLess": true, "searchGo": true, "min": true, "max": true,
+	"none": true, "some": true, "pure": true}
+
+// variables the translation introduces in reader / iterator / writer methods and iter.Seq closures
+var synthetic = map[string]bool{"pos": true, "broke": true, "log": true, "cur": true, "lines": true, "ending": true, "outOfFuel": true,
+	"fuel": true, "src": true}
+var synthActive bool
+
 func ln(name string) string {
-	if leanKeywords[name] {
+	if leanKeywords[name] || vocabulary[name] || (synthActive && synthetic[name]) {
 		return name + "_"
 	}
 	return name
@@ -353,7 +366,7 @@ func (g *gl) ident(id *ast.Ident) ex {
 func (g *gl) indexInt(e ast.Expr) string {
 	x := g.expr(e)
 	if isByte(g.typeOf(e)) {
-		return "(" + x.opnd() + ".toNat : Int)"
+		return "(" + x.arg() + ".toNat : Int)"
 	}
 	return x.arg()
 }
@@ -483,7 +496,7 @@ func (g *gl) expr(e ast.Expr) ex {
 func (g *gl) binary(v *ast.BinaryExpr) ex {
 	lt := g.typeOf(v.X)
 	l, r := g.expr(v.X), g.expr(v.Y)
-	infix := func(op string) ex { return ex{text: l.opnd2() + " " + op + " " + r.opnd2()} }
+	infix := func(op string) ex { return ex{text: l.arg() + " " + op + " " + r.arg()} }
 	hasAct := func(e ex) bool { return e.act || strings.Contains(e.text, "(← ") }
 	switch v.Op {
 	case token.ADD:
@@ -544,12 +557,12 @@ func (g *gl) binary(v *ast.BinaryExpr) ex {
 		}
 	case token.LAND:
 		if hasAct(r) { // Go evaluates the right operand only when needed (it may panic)
-			return ex{text: "if " + l.opnd2() + " then (do return " + r.opnd2() + ") else pure false", act: true}
+			return ex{text: "if " + l.opnd2() + " then (do return (" + r.opnd2() + " : Bool)) else pure false", act: true}
 		}
 		return infix("&&")
 	case token.LOR:
 		if hasAct(r) {
-			return ex{text: "if " + l.opnd2() + " then pure true else (do return " + r.opnd2() + ")", act: true}
+			return ex{text: "if " + l.opnd2() + " then pure true else (do return (" + r.opnd2() + " : Bool))", act: true}
 		}
 		return infix("||")
 	}
@@ -559,6 +572,41 @@ func (g *gl) binary(v *ast.BinaryExpr) ex {
 
 // operand of an infix operator: compound pure terms are parenthesised only
 // when they are themselves infix/applications that could mis-associate
+// sort.Slice(x, func(i, j int) bool { return less(x[i], x[j]) }): the comparator call must take exactly
+// x[i] and x[j], with i and j the closure's parameters in that order
+func sortArgsOK(fl *ast.FuncLit, x string, lc *ast.CallExpr) bool {
+	var ps []string
+	for _, f := range fl.Type.Params.List {
+		for _, n := range f.Names {
+			ps = append(ps, n.Name)
+		}
+	}
+	if len(ps) != 2 {
+		return false
+	}
+	for k, a := range lc.Args {
+		ie, ok := a.(*ast.IndexExpr)
+		if !ok {
+			return false
+		}
+		b, ok1 := ie.X.(*ast.Ident)
+		i, ok2 := ie.Index.(*ast.Ident)
+		if !ok1 || !ok2 || b.Name != x || i.Name != ps[k] {
+			return false
+		}
+	}
+	return true
+}
+
+// a case expression of a switch: Go evaluates case expressions lazily, the translation does not
+func caseExpr(g *gl, ce ast.Expr) string {
+	x := g.expr(ce)
+	if x.act || strings.Contains(x.text, "(← ") {
+		g.die(ce, "switch case expression that can panic")
+	}
+	return x.arg()
+}
+
 func (e ex) opnd2() string {
 	if e.act {
 		return "(← " + e.text + ")"
@@ -582,7 +630,7 @@ func (g *gl) call(c *ast.CallExpr) ex {
 		case isByte(tv.Type) && isInt(from):
 			return ex{text: "u8 " + a.arg()}
 		case isInt(tv.Type) && isByte(from):
-			return ex{text: "(" + a.opnd() + ".toNat : Int)", atom: true}
+			return ex{text: "(" + a.arg() + ".toNat : Int)", atom: true}
 		case isList(tv.Type) && isList(from):
 			return a
 		}
@@ -602,9 +650,9 @@ func (g *gl) call(c *ast.CallExpr) ex {
 				if len(c.Args) == 2 {
 					a, b := g.expr(c.Args[0]), g.expr(c.Args[1])
 					if c.Ellipsis != token.NoPos {
-						return ex{text: a.opnd() + " ++ " + b.opnd()}
+						return ex{text: a.arg() + " ++ " + b.arg()}
 					}
-					return ex{text: a.opnd() + " ++ [" + b.opnd() + "]"}
+					return ex{text: a.arg() + " ++ [" + b.opnd() + "]"}
 				}
 			case "make":
 				t := g.typeOf(c)
@@ -649,7 +697,7 @@ func (g *gl) call(c *ast.CallExpr) ex {
 					if fl, ok := c.Args[1].(*ast.FuncLit); ok && len(fl.Type.Params.List) == 1 && len(fl.Type.Params.List[0].Names) == 1 && len(fl.Body.List) == 1 {
 						if r, ok := fl.Body.List[0].(*ast.ReturnStmt); ok && len(r.Results) == 1 {
 							j := fl.Type.Params.List[0].Names[0].Name
-							return ex{text: "searchGo " + g.expr(c.Args[0]).arg() + " (fun " + j + " => do return " + g.expr(r.Results[0]).opnd() + ")", act: true}
+							return ex{text: "searchGo " + g.expr(c.Args[0]).arg() + " (fun " + j + " => do return (" + g.expr(r.Results[0]).opnd() + " : Bool))", act: true}
 						}
 					}
 				}
@@ -663,9 +711,23 @@ func (g *gl) call(c *ast.CallExpr) ex {
 					return atomE("GoErr.other") // the message is not modelled
 				}
 				if pn.Imported().Path() == "strings" && f.Sel.Name == "ContainsAny" && len(c.Args) == 2 {
+					// Go compares runes; bytewise comparison is exact when the character set is ASCII
+					cv, ok := g.info.Types[c.Args[1]]
+					if !ok || cv.Value == nil || cv.Value.Kind() != constant.String {
+						g.die(c, "ContainsAny with a non-constant character set")
+					}
+					for _, ch := range []byte(constant.StringVal(cv.Value)) {
+						if ch >= 0x80 {
+							g.die(c, "ContainsAny with a non-ASCII character set")
+						}
+					}
 					return ex{text: "containsAny " + g.expr(c.Args[0]).arg() + " " + g.expr(c.Args[1]).arg()}
 				}
 				if pn.Imported().Path() == "strings" && f.Sel.Name == "ReplaceAll" && len(c.Args) == 3 {
+					ov, ok := g.info.Types[c.Args[1]]
+					if !ok || ov.Value == nil || ov.Value.Kind() != constant.String || constant.StringVal(ov.Value) == "" {
+						g.die(c, "ReplaceAll whose old string is not a non-empty constant")
+					}
 					return ex{text: "replaceAll " + g.expr(c.Args[0]).arg() + " " + g.expr(c.Args[1]).arg() + " " + g.expr(c.Args[2]).arg()}
 				}
 			}
@@ -764,7 +826,7 @@ func (g *gl) assignTo(w *wr, lhs ast.Expr, tok token.Token, rhs ast.Expr) {
 			val = g.expr(rhs).arg()
 		} else if op, ok := opOf[tok]; ok {
 			sym := map[token.Token]string{token.ADD: "+", token.SUB: "-", token.OR: "|||"}[op]
-			val = "((← idx " + name + " " + i + ") " + sym + " " + g.expr(rhs).opnd() + ")"
+			val = "((← idx " + name + " " + i + ") " + sym + " " + g.expr(rhs).arg() + ")"
 		} else {
 			g.die(lhs, "assignment operator")
 		}
@@ -815,15 +877,45 @@ func (g *gl) stmt(w *wr, s ast.Stmt) {
 			if _, ok := v.Rhs[0].(*ast.CompositeLit); ok {
 				ann = " : " + g.leanType(g.typeOf(v.Rhs[0]))
 			}
+			if tv, ok := g.info.Types[v.Rhs[0]]; ok && tv.Value != nil {
+				ann = " : " + g.leanType(g.objOf(id).Type()) // an unannotated numeral would default to Nat
+			}
+			if g.declared[id.Name] {
+				g.die(v, "redeclaration of "+id.Name+" in an inner scope")
+			}
+			g.declared[id.Name] = true
 			w.line(bindText(kw, ln(id.Name)+ann, g.expr(v.Rhs[0])))
 			return
 		}
 		if len(v.Lhs) == len(v.Rhs) {
 			if len(v.Lhs) > 1 {
-				// parallel assignment: sequential only when every right-hand side is a constant
+				// parallel assignment: sequential only when every right-hand side is a constant and no
+				// left-hand side can influence another (plain variables, or elements at constant indices)
 				for _, r := range v.Rhs {
 					if tv, ok := g.info.Types[r]; !ok || tv.Value == nil {
 						g.die(v, "parallel assignment of non-constants")
+					}
+				}
+				plain := map[string]bool{}
+				for _, l := range v.Lhs {
+					switch x := l.(type) {
+					case *ast.Ident:
+						plain[x.Name] = true
+					case *ast.IndexExpr:
+						if tv, ok := g.info.Types[x.Index]; !ok || tv.Value == nil {
+							g.die(v, "parallel assignment to a computed index")
+						}
+					default:
+						g.die(v, "parallel assignment target")
+					}
+				}
+				for _, l := range v.Lhs {
+					if ie, ok := l.(*ast.IndexExpr); ok {
+						for n := range identsIn(ie.Index) {
+							if plain[n] {
+								g.die(v, "parallel assignment whose targets depend on each other")
+							}
+						}
 					}
 				}
 			}
@@ -869,7 +961,7 @@ func (g *gl) stmt(w *wr, s ast.Stmt) {
 					if g.rdKind == "bytes" && n.Name == g.rdLoopVar {
 						continue // bound by the `for … in src` that replaces the ReadByte loop
 					}
-					w.line("let mut " + n.Name + " : " + g.leanType(t) + " := " + bareZero(g.zero(t)))
+					w.line("let mut " + ln(n.Name) + " : " + g.leanType(t) + " := " + bareZero(g.zero(t)))
 				}
 			}
 			return
@@ -903,7 +995,7 @@ func (g *gl) stmt(w *wr, s ast.Stmt) {
 							fl, ok2 := c.Args[1].(*ast.FuncLit)
 							if ok1 && ok2 && len(fl.Body.List) == 1 {
 								if r, ok := fl.Body.List[0].(*ast.ReturnStmt); ok && len(r.Results) == 1 {
-									if lc, ok := r.Results[0].(*ast.CallExpr); ok && len(lc.Args) == 2 {
+									if lc, ok := r.Results[0].(*ast.CallExpr); ok && len(lc.Args) == 2 && sortArgsOK(fl, x.Name, lc) {
 										if lf, ok := lc.Fun.(*ast.Ident); ok {
 											if callee, ok := g.funcs[lf.Name]; ok && callee.found && len(callee.globals) == 0 {
 												n := g.lvName(x)
@@ -1018,7 +1110,18 @@ func (g *gl) block(w *wr, list []ast.Stmt) {
 		w.line("pure ()")
 		return
 	}
-	for _, s := range list {
+	for i, s := range list {
+		if es, ok := s.(*ast.ExprStmt); ok && g.rdKind == "bytes" && g.rdCall(es.X) == "UnreadByte" {
+			// `pos := pos - 1` is only right if the loop over the input stops here
+			next, ok := ast.Stmt(nil), false
+			if i+1 < len(list) {
+				next, ok = list[i+1], true
+			}
+			br, isBr := next.(*ast.BranchStmt)
+			if !ok || !isBr || br.Tok != token.BREAK || br.Label == nil || br.Label.Name != g.rdLabel {
+				g.die(s, "UnreadByte not directly followed by break out of the read loop")
+			}
+		}
 		g.stmt(w, s)
 	}
 }
@@ -1097,7 +1200,7 @@ func (g *gl) switchStmt(w *wr, v *ast.SwitchStmt) {
 		}
 		var conds []string
 		for _, ce := range cc.List {
-			conds = append(conds, tag.opnd()+" == "+g.expr(ce).opnd())
+			conds = append(conds, tag.arg()+" == "+caseExpr(g, ce))
 		}
 		kw := "else if "
 		if first {
@@ -1208,6 +1311,13 @@ func (g *gl) forStmt(w *wr, v *ast.ForStmt) {
 	if rng == "" {
 		g.die(v, "for loop shape")
 	}
+	// Go re-evaluates the condition on every iteration; the translation evaluates the bound once
+	wr := writtenIn(v.Body)
+	for n := range identsIn(cond.Y) {
+		if wr[n] {
+			g.die(v, "loop bound depends on "+n+", which the body writes")
+		}
+	}
 	w.line("for " + ln(iv.Name) + " in " + rng + " do")
 	w.ind++
 	g.block(w, v.Body.List)
@@ -1225,6 +1335,20 @@ func (g *gl) rangeStmt(w *wr, v *ast.RangeStmt) {
 		g.die(v, "range over an expression with effects")
 	}
 	_, isMap := xt.Underlying().(*types.Map)
+	if bt, ok := xt.Underlying().(*types.Basic); ok && bt.Kind() == types.String {
+		g.die(v, "range over a string (runes)")
+	}
+	{
+		// Go reads slice elements live and skips map entries deleted during the loop; the translation
+		// iterates a snapshot, so the body must not write the ranged variable
+		wr := writtenIn(v.Body)
+		_, isArr := xt.Underlying().(*types.Array)
+		for n := range identsIn(v.X) {
+			if wr[n] && !isArr && (v.Value != nil || isMap) {
+				g.die(v, "the loop body writes "+n+", which is being ranged over")
+			}
+		}
+	}
 	switch {
 	case isMap && v.Value == nil:
 		// Go ranges over a map in an unspecified order; the translation uses ascending key order, which is
@@ -1252,9 +1376,137 @@ func (g *gl) rangeStmt(w *wr, v *ast.RangeStmt) {
 	w.ind--
 }
 
+// names (root identifiers) written anywhere in a subtree: x = …, x[i] = …, x op= …, x++, copy(x…), delete(x, …)
+func writtenIn(n ast.Node) map[string]bool {
+	out := map[string]bool{}
+	root := func(e ast.Expr) {
+		for {
+			switch x := e.(type) {
+			case *ast.IndexExpr:
+				e = x.X
+				continue
+			case *ast.SliceExpr:
+				e = x.X
+				continue
+			case *ast.SelectorExpr:
+				e = x.X
+				continue
+			case *ast.ParenExpr:
+				e = x.X
+				continue
+			case *ast.Ident:
+				out[x.Name] = true
+			}
+			return
+		}
+	}
+	ast.Inspect(n, func(n ast.Node) bool {
+		switch v := n.(type) {
+		case *ast.AssignStmt:
+			for _, l := range v.Lhs {
+				root(l)
+			}
+		case *ast.IncDecStmt:
+			root(v.X)
+		case *ast.CallExpr:
+			if id, ok := v.Fun.(*ast.Ident); ok && (id.Name == "copy" || id.Name == "delete") && len(v.Args) >= 1 {
+				root(v.Args[0])
+			}
+		}
+		return true
+	})
+	return out
+}
+
+func identsIn(e ast.Node) map[string]bool {
+	out := map[string]bool{}
+	ast.Inspect(e, func(n ast.Node) bool {
+		if id, ok := n.(*ast.Ident); ok {
+			out[id.Name] = true
+		}
+		return true
+	})
+	return out
+}
+
+// checkAliasing: slices are values in the translation.  A function in which one slice variable is
+// assigned from another variable or from a slice expression AND one of the two has its ELEMENTS written
+// (x[i] = …, copy(x, …)) could observe sharing; such functions are not translated.
+func (g *gl) checkAliasing(body ast.Node) {
+	aliased := map[string]bool{}
+	elemWritten := map[string]bool{}
+	rootName := func(e ast.Expr) string {
+		for {
+			switch x := e.(type) {
+			case *ast.SliceExpr:
+				e = x.X
+				continue
+			case *ast.ParenExpr:
+				e = x.X
+				continue
+			case *ast.Ident:
+				return x.Name
+			}
+			return ""
+		}
+	}
+	ast.Inspect(body, func(n ast.Node) bool {
+		switch v := n.(type) {
+		case *ast.AssignStmt:
+			if len(v.Lhs) == len(v.Rhs) {
+				for i, r := range v.Rhs {
+					tv, ok := g.info.Types[r]
+					if !ok || tv.Type == nil {
+						continue
+					}
+					if _, isSl := tv.Type.Underlying().(*types.Slice); !isSl {
+						continue
+					}
+					switch r.(type) {
+					case *ast.Ident, *ast.SliceExpr:
+						if rn := rootName(r); rn != "" && rn != "nil" {
+							aliased[rn] = true
+							if l, ok := v.Lhs[i].(*ast.Ident); ok {
+								aliased[l.Name] = true
+							}
+						}
+					}
+				}
+			}
+			for _, l := range v.Lhs {
+				if ie, ok := l.(*ast.IndexExpr); ok {
+					if tv, ok := g.info.Types[ie.X]; ok && tv.Type != nil {
+						if _, isSl := tv.Type.Underlying().(*types.Slice); isSl {
+							elemWritten[rootName(ie.X)] = true
+						}
+					}
+				}
+			}
+		case *ast.CallExpr:
+			if id, ok := v.Fun.(*ast.Ident); ok && id.Name == "copy" && len(v.Args) == 2 {
+				if tv, ok := g.info.Types[v.Args[0]]; ok && tv.Type != nil {
+					if _, isSl := tv.Type.Underlying().(*types.Slice); isSl {
+						if _, isSE := v.Args[0].(*ast.SliceExpr); !isSE { // copy(arr[:], …) writes an array, a value
+							elemWritten[rootName(v.Args[0])] = true
+						}
+					}
+				}
+			}
+		}
+		return true
+	})
+	for n := range aliased {
+		if elemWritten[n] {
+			g.die(body, "slice "+n+" is both shared with another variable and written element-wise (aliasing is not modelled)")
+		}
+	}
+}
+
 // variables (locals and parameters) assigned after their declaration
 func (g *gl) findMutated(body ast.Node) {
 	g.mut = map[types.Object]bool{}
+	g.declared = map[string]bool{}
+	g.checkAliasing(body)
 	mark := func(e ast.Expr) {
 		for {
 			switch x := e.(type) {
@@ -1303,11 +1555,19 @@ func (g *gl) findMutated(body ast.Node) {
 
 // ---- top level -------------------------------------------------------------
 
+// definitions whose generated Lean text was rejected by Lean on an earlier attempt of this run
+var skipDefs = map[string]bool{}
+
 func (g *gl) guarded(name, placeholder string, f func() (string, []string)) {
 	fn := &glFunc{name: name, sig: placeholder}
 	g.funcs[name] = fn
 	g.order = append(g.order, name)
 	g.globals = map[string]bool{}
+	if skipDefs[name] {
+		fn.found = false
+		fn.text = fmt.Sprintf("def %s_Found : Bool := false -- not translated: the generated Lean text did not compile\n%s\n", name, placeholder)
+		return
+	}
 	defer func() {
 		if r := recover(); r != nil {
 			b, ok := r.(bail)
@@ -1319,7 +1579,26 @@ func (g *gl) guarded(name, placeholder string, f func() (string, []string)) {
 		}
 	}()
 	text, globals := f()
+	// the theorems are stated against the signature of the placeholder: a translation of another type
+	// (the source now builds different tables, takes other parameters, …) is "not translated"
+	if want, got := defHeader(placeholder, name), defHeader(text, name); want != got {
+		panic(bail{"signature changed: " + got + " (expected " + want + ")"})
+	}
 	fn.text, fn.globals, fn.found = text, globals, true
+}
+
+// "def <name> <params> : <type>" of the definition called name inside a generated text, whitespace-normalised
+func defHeader(text, name string) string {
+	for _, l := range strings.Split(text, "\n") {
+		if strings.HasPrefix(l, "def "+name+" ") {
+			h := l
+			if i := strings.LastIndex(h, " :="); i >= 0 {
+				h = h[:i]
+			}
+			return strings.Join(strings.Fields(strings.NewReplacer("(", " ( ", ")", " ) ").Replace(h)), " ")
+		}
+	}
+	return ""
 }
 
 func (g *gl) globalParams(names []string) string {
@@ -1501,6 +1780,8 @@ func (g *gl) readerMethod(lname, recvType, method, field, kind, rel, recT, place
 		}
 		g.findMutated(fd.Body)
 		g.yieldT, g.curFunc, g.lits = "", lname, nil
+		synthActive = true
+		defer func() { synthActive = false }()
 		g.rdKind, g.rdRecv, g.rdField, g.rdLabel, g.nScan = kind, fd.Recv.List[0].Names[0].Name, field, "", 0
 		g.structLoc = map[types.Object][]string{}
 		defer func() { g.rdKind, g.curFunc = "", "" }()
@@ -1578,16 +1859,16 @@ func (g *gl) fprintfBytes(c *ast.CallExpr) string {
 		switch verb := format[i]; {
 		case (verb == 's') && isList(at):
 			flush()
-			parts = append(parts, x.opnd())
+			parts = append(parts, x.arg())
 		case verb == 'v' && isList(at) && func() bool { b, ok := at.Underlying().(*types.Basic); return ok && b.Kind() == types.String }():
 			flush()
-			parts = append(parts, x.opnd())
+			parts = append(parts, x.arg())
 		case (verb == 'v' || verb == 'd') && isInt(at):
 			flush()
 			parts = append(parts, "itoa "+x.arg())
 		case (verb == 'v' || verb == 'd') && isByte(at):
 			flush()
-			parts = append(parts, "itoa ("+x.opnd()+".toNat : Int)")
+			parts = append(parts, "itoa ("+x.arg()+".toNat : Int)")
 		default:
 			g.die(c, fmt.Sprintf("Fprintf verb %%%c with %s", verb, at))
 		}
@@ -1665,8 +1946,10 @@ func (g *gl) writerMethod(lname, recvType, method, rel, placeholder string, opaq
 		}
 		g.findMutated(fd.Body)
 		g.yieldT, g.curFunc, g.lits, g.nScan = "", lname, nil, 0
+		synthActive = true
+		defer func() { synthActive = false }()
 		g.rdKind = "write"
-		g.wrParam = fd.Type.Params.List[0].Names[0].Name
+		g.wrParam = ln(fd.Type.Params.List[0].Names[0].Name)
 		g.rdState = g.wrParam
 		defer func() { g.rdKind, g.curFunc, g.wrParam = "", "", "" }()
 		g.structLoc = map[types.Object][]string{}
@@ -1758,6 +2041,8 @@ func (g *gl) iterMethod(lname, readName, recvType, method, kind, rel, recT, plac
 		}
 		g.findMutated(fl.Body)
 		g.yieldT, g.curFunc, g.lits, g.nScan = "", lname, nil, 0
+		synthActive = true
+		defer func() { synthActive = false }()
 		g.rdKind, g.rdRecv = "iter", fd.Recv.List[0].Names[0].Name
 		g.iterRead, g.iterRec = readName, "Option ("+recT+") × GoErr"
 		g.structLoc = map[types.Object][]string{}
@@ -2098,7 +2383,7 @@ func goLean(repo, out string) {
 	w.WriteString(g4.funcs["fastq_Write"].text + "\n")
 	// regions: the whole package
 	g6 := loadPkg(filepath.Join(repo, "regions"))
-	const EV, IV = "(Int × Int × Bool)", "(Int × List Int)"
+	const EV, IV = "(Int × Int × Bool)", "(Int × (List Int))"
 	g6.function("eventLess", "regions", "def eventLess (a : "+EV+") (b : "+EV+") : Option Bool := none")
 	g6.function("keys", "regions", "def keys (m : List Int) : Option (List Int) := none")
 	g6.function("cp", "regions", "def cp (a : List Int) : Option (List Int) := none")
